@@ -4,7 +4,7 @@ from lib import vlib
 from checks import common
 
 PID = "C06"
-WIT = [("Crypt_w_%s.cfg" % d, d) for d in ("aesv3_key_truncated", "metadata_exemption_ignored", "encrypt_dict_decrypted", "objstm_strings_decrypted_twice")]
+WIT = [("Crypt_w_%s.cfg" % d, d) for d in ("aesv3_key_truncated", "metadata_exemption_ignored", "encrypt_dict_decrypted", "objstm_strings_decrypted_twice", "array_elements_not_decrypted")]
 
 
 KDF = {}
@@ -34,7 +34,7 @@ def run(tier, seed):
     KDF["cov"] = {}
     return common.run_enum(PID, tier, seed, "MC_Crypt", "crypt", ["Crypt_q.cfg"], WIT, actions=["Open", "Read"],
         rule="every configuration of the protocol model: 7 handler variants (RC4 40-bit R2, RC4 56/128-bit R3, crypt filters with RC4 / AES-128 R4, AES-256 R5 and R6) x "
-             "{user, owner, wrong password, empty user password} x EncryptMetadata x placement {string in an indirect object, stream, metadata stream, the /Encrypt dictionary "
+             "{user, owner, wrong password, empty user password} x EncryptMetadata x placement {string as a dictionary value / as the object itself / as an array element / inside nested containers of an indirect object, stream, metadata stream, the /Encrypt dictionary "
              "indirect / direct, string inside an object stream, cross-reference stream} x length class {empty, < 16, 16, 100} x (object, generation) {(3,0), (4,5), (70000,0)}; "
              "each is written by the harness' independent security handler (Algorithms 1, 1.A, 2, 2.A, 2.B, 3-5, 8, 9 on md5/sha2/aes/cbc + own RC4) and opened through "
              "FileOptions::password(..).load; strings via resolve, stream data via raw_data must equal the plaintext, a wrong password must give the invalid-password error; "
